@@ -74,8 +74,9 @@ def alpha(x):
                 return {"t": "full", "m": FULL_LOWER.index(lo) + 1, "up": up}
             return {"t": "word", "w": "w"}
         # non-ASCII text that Python's digit/case machinery may read as a month spelling: only totality is demanded
-        if x.isdigit() or x.isdecimal() or x.isnumeric() or x.lower() in ABBR or x.lower() in FULL_LOWER \
-                or x.casefold() in ABBR or x.casefold() in FULL_LOWER:
+        # (a word that only CASE-FOLDS to a month name, like 'auguſt', is not one of the 2^n letter-case variants the
+        # statement quantifies over: it is an "other word" and must come back unchanged)
+        if x.isdigit() or x.isdecimal() or x.isnumeric() or x.lower() in ABBR or x.lower() in FULL_LOWER:
             return {"t": "ambiguous"}
         return {"t": "word", "w": "u"}
     return {"t": "other", "w": type(x).__name__}
@@ -186,6 +187,8 @@ def sig_of(m):
 def rand_values(rnd, n):
     digits = "0123456789²³¹٣٤۵७१２３４⑤"
     letters = "janfebmrchpilyugstovdJANFEBMRCHPILYUGSTOVDıİſK \t{}\"#-+."
+    lookalikes = ["ſep", "ſEPTEMBER", "auguſt", "auguﬆ", "AUGUﬅ", "ſeptember", "ǆ", "Ｊａｎ", "jän", "İan", "ıan", " 3", "3 ", "+3", "1_2", "\t12\n", "marzo", "Januar",
+                  "Sept", "decade", "June 2020", "jan.", "May ", "0x3", "3.0", "٣", "１２"]
     vals = []
     for i in range(n):
         r = rnd.random()
@@ -199,9 +202,11 @@ def rand_values(rnd, n):
             m = rnd.choice(FULL + ABBR)
             vals.append("".join(c.upper() if rnd.random() < 0.5 else c.lower() for c in m))
         elif r < 0.6:
-            vals.append(rnd.choice([None, 1.5, True, False, ["jan"], ("jan",), {"a": 1}, b"jan", 0, -3, 13, 10 ** 30, 5, 12, float("nan")]))
+            vals.append(rnd.choice([None, 1.5, True, False, ["jan"], ("jan",), {"a": 1}, b"jan", 0, -3, 13, 10 ** 30, 5, 12, float("nan"), 10 ** 4400, -(10 ** 5000)]))
         elif r < 0.7:
             vals.append(rnd.randint(-5, 20))
+        elif r < 0.78:
+            vals.append(rnd.choice(lookalikes))
         else:
             vals.append("".join(rnd.choice(letters + digits) for _ in range(rnd.randint(0, 9))))
     return vals
